@@ -240,7 +240,7 @@ func (p *parser) parseExpr(minPrec int) (Expr, error) {
 
 func (p *parser) parseUnary() (Expr, error) {
 	t := p.peek()
-	if t.kind == "op" && (t.text == "!" || t.text == "-" || t.text == "^" || t.text == "*") {
+	if t.kind == "op" && (t.text == "!" || t.text == "-" || t.text == "^" || t.text == "*" || t.text == "&") {
 		p.next()
 		x, err := p.parseUnary()
 		if err != nil {
@@ -471,6 +471,9 @@ type SpecFunc struct {
 	Body   Expr // nil => uninterpreted
 	File   string
 	Rec    bool // recursive definition: applications are UF terms with one-step unfolding instances
+	// Opaque: a non-recursive definition kept folded: applications are UF terms, and the definition is
+	// stated once as a universally quantified axiom triggered on the application
+	Opaque bool
 }
 
 type DeclIface struct { // pure interface method declaration
@@ -686,8 +689,12 @@ func (cs *ContractSet) LoadFile(path, pkgPath string, isSpec bool) error {
 			// spec func name(a T, b U) R [= expr]
 			w2, r2 := firstWord(rest)
 			rec := false
+			opaque := false
 			if w2 == "rec" {
 				rec = true
+				w2, r2 = firstWord(r2)
+			} else if w2 == "opaque" {
+				rec, opaque = true, true
 				w2, r2 = firstWord(r2)
 			}
 			if w2 != "func" {
@@ -698,6 +705,7 @@ func (cs *ContractSet) LoadFile(path, pkgPath string, isSpec bool) error {
 				return fail(err)
 			}
 			sf.Rec = rec
+			sf.Opaque = opaque
 			sf.Pkg = pkgPath
 			sf.File = path
 			cs.Specs[sf.Name] = sf
